@@ -16,7 +16,7 @@ RULE = ('cipher: every (position mod 143, byte) pair in both directions plus byt
         'random longer ones; programs: typed programs (varied statements, all constant kinds, long lines, line numbers '
         'up to 65529, bytes 1..255 in strings/REM/DATA) and hand-assembled tokenised images (all byte values in '
         'literals/REM/DATA/constant payloads, line numbers up to 65535, bytes behind the program); each program goes '
-        'through multi-step histories of edits, SAVE (tokenised/,A/,P), NEW, LOAD, MERGE, CHAIN MERGE; ASCII: lines whose listing is '
+        'through multi-step histories of edits, SAVE (tokenised/,A/,P), NEW, LOAD, MERGE, CHAIN MERGE, also with only 0..300 bytes of BASIC memory free (CLEAR ,n from feedback; program filling 64K); ASCII: lines whose listing is '
         '253..258 characters (REM / string padding, ? listed as PRINT) in first, inner and last position, and hand-written '
         'files with blank lines, CR / LF / CRLF line ends, missing or early 1A; a case = one cipher string, '
         'one SAVE, one LOAD, one MERGE, one conversion or one damaged file; non-trivial = program with at least one line')
@@ -26,7 +26,7 @@ EXPLANATION = ('theorems (PcbV.Props.C15): cipher_bijection for any key tables a
                'counterexamples for the end-of-file byte that a tokenised LOAD keeps behind the program; '
                'correspondence: protect.py functions, CodeStream.skip_to, real SAVE file bytes and real LOAD results '
                '(buffer, size, protected flag) incl. damaged files vs the compiled Lean model; oracle: memory / LIST / '
-               'file comparisons through real sessions on disk and cassette, MERGE vs re-entry, main._convert vs SAVE'
+               'file comparisons through real sessions on disk and cassette, MERGE vs re-entry, main._convert vs SAVE; under memory pressure (CLEAR ,n, 64K-filling program) MERGE / CHAIN MERGE / LOAD / retyping against a reference that enters the same lines afresh (store_line memory check modelled: storeOom)'
                '; source tie: the loop bodies of protect/unprotect are translated mechanically from the current '
                'Python AST into PcbV.Gen.Translated (gen/py2lean.py), proved equal to protByte/unprotByte/nextIndex '
                'on unbounded Python ints (translated_protStep_eq, translated_unprotStep_eq, translated_nextIndex_eq) '
@@ -341,6 +341,10 @@ class Runner(object):
         self.sessions = {}
         self.cases, self.outs, self.lines = [], [], []
         self.n = 0
+        self.fit_cache = {}
+        self.last_fit_n = None
+        self.default_total = None
+        self.pressured = set()
 
     def close(self):
         for s, _ in self.sessions.values():
@@ -356,13 +360,112 @@ class Runner(object):
             d = os.path.join(self.tmp, 'd%s' % hide)
             os.makedirs(d, exist_ok=True)
             kw = {'hide_protected': True} if hide == 1 else {}
-            if hide == 'reentry':
+            if hide in ('reentry', 'pressure'):
                 s = basic.new_session()
             else:
                 s = basic.new_session(devices={'C': d}, current_device='C', **kw)
             s.execute(b'NEW')
             self.sessions[hide] = (s, d)
         return self.sessions[hide]
+
+    # -- memory pressure (CLEAR ,n): reference answers that do not depend on how a program was built
+    @staticmethod
+    def line_number(line):
+        digits = b''
+        for c in bytearray(line.lstrip(b' ')):
+            if not 48 <= c <= 57:
+                break
+            digits += bytes((c,))
+        return int(digits) if digits else None
+
+    def fits(self, lines, n):
+        """Does the program made of these lines fit when BASIC memory is n bytes?  Reference: a fresh program in
+        another session with the same CLEAR ,n, the lines entered in ascending order (so every store appends)."""
+        key = (n, tuple(lines))
+        if key not in self.fit_cache:
+            if 'pressure' in self.sessions and self.last_fit_n is not None and n > self.last_fit_n:
+                self.sessions.pop('pressure')[0].close()
+            s3, _ = self.session('pressure')
+            self.last_fit_n = n
+            s3.execute(b'NEW')
+            out = s3.execute(b'CLEAR ,%d' % n)
+            ok = b'Out of memory' not in out
+            for l in lines:
+                if not ok:
+                    break
+                ok = b'Out of memory' not in s3.execute(l)
+            self.pressured.add('pressure')
+            self.fit_cache[key] = ok
+            self.ctx.count('pressure:reference-builds')
+        return self.fit_cache[key]
+
+    def simulate(self, base_lines, new_lines, n):
+        """Reference result of storing new_lines one after the other into the program base_lines with n bytes of
+        BASIC memory: (lines of the resulting program, index of the first line that must be refused or None).
+        A store is refused iff the program as it would be after that store does not fit."""
+        prog = {}
+        for l in base_lines:
+            prog[self.line_number(l)] = l
+        for i, l in enumerate(new_lines):
+            num = self.line_number(l)
+            if num is None:
+                continue
+            body = l.lstrip(b' ')[len(b'%d' % num):].strip(b' ')
+            nxt = dict(prog)
+            if body:
+                nxt[num] = l
+            else:
+                nxt.pop(num, None)
+            if body and not self.fits([nxt[k] for k in sorted(nxt)], n):
+                return [prog[k] for k in sorted(prog)], i
+            prog = nxt
+        return [prog[k] for k in sorted(prog)], None
+
+    def drop_pressured(self):
+        """CLEAR ,n can only shrink BASIC memory within a session: a session that was put under memory pressure is
+        replaced by a new one"""
+        for hide in list(self.pressured):
+            if hide in self.sessions:
+                try:
+                    self.sessions.pop(hide)[0].close()
+                except Exception:
+                    pass
+        self.pressured = set()
+
+    def type_under_pressure(self, s, sc, line, n, cs, fail):
+        """(re)typing a program line with n bytes of BASIC memory: model of the memory check + reference outcome"""
+        p, mem_ = s._impl.program, s._impl.memory
+        num = self.line_number(line)
+        base_lines = p.list_lines(None, None)
+        buf = p.bytecode.getvalue()
+        before_mem = buf[:p.size()]
+        nums = sorted(p.line_numbers)
+        afterpos = p.line_numbers[min(k for k in nums if k > num)] if num < 65536 else None
+        pos = p.line_numbers.get(num, afterpos)
+        try:
+            length = len(s._impl.tokeniser.tokenise_line(line).getvalue())
+        except Exception:
+            length = None
+        out = s.execute(line)
+        body = line.lstrip(b' ')[len(b'%d' % num):].strip(b' ')
+        refused_really = b'Out of memory' in out
+        if body and length is not None and afterpos is not None:
+            self.cases.append({'store': hx(line), 'n': n})
+            self.outs.append('ok %d' % int(refused_really))
+            self.lines.append('store %d %d %d %d %d' % (cs, mem_.stack_start(), pos, length, len(buf) - afterpos))
+        final_lines, refused = self.simulate(base_lines, [line], n)
+        self.ctx.case(('type-pressure', n, line))
+        self.ctx.count('pressure:type:%s' % ('refusal-expected' if refused is not None else 'must-succeed'))
+        if (refused is not None) != refused_really:
+            fail('pressure:type:%s' % ('spurious-out-of-memory' if refused_really else 'accepted-too-much'),
+                 'typing line %d with %d bytes of BASIC memory printed %r; the resulting program %s when entered afresh'
+                 % (num, n, out, 'does not fit' if refused is not None else 'fits'))
+        else:
+            exp = self.reentry_memory([final_lines])
+            now = p.bytecode.getvalue()[:p.size()]
+            if exp is not None and now != exp and self.reentry_memory([base_lines]) == before_mem:
+                fail('pressure:type:memory', 'program memory after typing line %d under memory pressure differs from '
+                     'entering the resulting lines afresh' % num)
 
     def flush(self):
         if self.cases:
@@ -422,10 +525,14 @@ class Runner(object):
 
         hide = sc.get('hide', 0)
         self.console_list = not sc.get('nolist', False)
+        self.drop_pressured()
         s, d = self.session(hide)
         for fn in os.listdir(d):
             os.unlink(os.path.join(d, fn))
         s.execute(b'NEW')
+        if self.default_total is None:
+            self.default_total = s._impl.memory.total_memory
+        pressure_n = None
         cs = s._impl.memory.code_start
         snaps = {}
         # a tokenised file is in the ancestry of the program in memory (since it was last built from text):
@@ -442,9 +549,43 @@ class Runner(object):
             kind = op[0]
             self.n += 1
             if kind == 'type':
-                out = s.execute(unhx(op[1]))
+                line = unhx(op[1])
+                if pressure_n is not None and self.line_number(line) is not None:
+                    self.type_under_pressure(s, sc, line, pressure_n, cs, fail)
+                else:
+                    out = s.execute(line)
                 last_loaded = None
                 ctx.count('op:type')
+            elif kind == 'clear':
+                # CLEAR ,n with n from feedback: the program end + stack + op[1] bytes (+ the stored length of line op[2])
+                mem_ = s._impl.memory
+                p_ = s._impl.program
+                extra = op[1]
+                if op[2] is not None and op[2] in p_.line_numbers:
+                    nums = sorted(p_.line_numbers)
+                    extra += p_.line_numbers[nums[nums.index(op[2]) + 1]] - p_.line_numbers[op[2]]
+                pressure_n = mem_.var_start() + mem_.stack_size + 2 + max(extra, 0)
+                out = s.execute(b'CLEAR ,%d' % pressure_n)
+                self.pressured.add(hide)
+                ctx.count('pressure:clear')
+                if out != b'':
+                    fail('pressure:clear', 'CLEAR ,%d (program end + stack + %d bytes) printed %r' % (pressure_n, extra, out))
+                    pressure_n = None
+            elif kind == 'fill':
+                # grow the program with REM lines (numbers from 20000) until fewer than op[1] bytes are free
+                # (at least 3 bytes stay free so that file commands can still hold their file name)
+                num = 20000
+                while num < 60000:
+                    free = int(s.execute(b'PRINT FRE(0)').strip() or 0)
+                    size = min(240, free - 7 - op[1])
+                    if size < 1:
+                        break
+                    if b'Out of memory' in s.execute(b'%d REM %s' % (num, b'f' * size)):
+                        break
+                    num += 1
+                self.pressured.add(hide)
+                pressure_n = s._impl.memory.total_memory
+                ctx.count('pressure:fill')
             elif kind == 'new':
                 s.execute(b'NEW')
                 tok, last_loaded = False, None
@@ -538,10 +679,16 @@ class Runner(object):
             elif kind in ('load', 'merge', 'chainmerge'):
                 name = op[1]
                 snap = snaps.get(name)
-                if kind == 'chainmerge':
+                if kind == 'chainmerge' and not {1, 65529} <= set(s._impl.program.line_numbers):
                     # CHAIN MERGE run from a program line; execution continues at a line that just ends
                     s.execute(b'1 CHAIN MERGE "%s",65529' % name.encode())
                     s.execute(b'65529 END')
+                if pressure_n is not None and kind != 'chainmerge':
+                    free = int(s.execute(b'PRINT FRE(0)').strip() or 0)
+                    if free < len(name) + 1:
+                        # the file name does not fit in string space: the command itself cannot be accepted
+                        ctx.count('pressure:no-room-for-file-name')
+                        continue
                 before_buf, before_size, before_prot = self.state(s)
                 base_lines = None if before_prot else s._impl.program.list_lines(None, None)
                 try:
@@ -605,7 +752,26 @@ class Runner(object):
                         ctx.count('%s:A:excluded' % kind)
                         continue
                     tok_before = tok or snap['tok']
-                    if kind == 'load':
+                    if pressure_n is not None:
+                        # memory pressure: the reference says which store, if any, has to be refused
+                        base = [] if kind == 'load' else base_lines
+                        if base is None:
+                            continue
+                        final_lines, refused = self.simulate(base, snap['lines'], pressure_n)
+                        exp = self.reentry_memory([final_lines])
+                        ctx.count('pressure:%s:%s' % (kind, 'refusal-expected' if refused is not None else 'must-succeed'))
+                        if kind == 'load':
+                            tok = False
+                        if refused is not None:
+                            if b'Out of memory' not in out:
+                                fail('pressure:%s:accepted-too-much' % kind, 'with %d bytes of BASIC memory line %d of the '
+                                     'file gives a program that does not fit when entered afresh, but %s printed %r'
+                                     % (pressure_n, refused, kind, out))
+                            elif exp is not None and mem != exp:
+                                fail('pressure:%s:memory-after-refusal' % kind, 'after the justified Out of memory the '
+                                     'program is not the base program with the lines before the refused one merged in')
+                            continue
+                    elif kind == 'load':
                         exp = snap['exp_mem']
                         tok = False
                     else:
@@ -830,6 +996,60 @@ def random_ascii_scenario(rng):
                           rng.choice(ENDINGS))
 
 
+# memory pressure: CLEAR ,n leaves `extra` bytes above the program (+ the stored length of a given line)
+# (file commands need room for their file name in string space: 3 bytes for "SA"; below that only retyping is tried)
+PRESSURE = [(3, None), (4, None), (5, None), (8, None), (13, None), (40, None), (300, None),
+            (-3, 10), (-1, 10), (0, 10), (1, 10), (-2, 30), (0, 50), (2, 50)]
+PRESSURE_TYPING_ONLY = [(0, None), (1, None), (2, None)]
+PRESSURE_VARIANTS = ['self', 'delete', 'resize', 'chain', 'overlap', 'retype', 'load']
+
+
+def pressure_scenario(rng, extra, ref, variant):
+    """SAVE / LOAD / MERGE / CHAIN MERGE / retyping when only a few bytes (up to about a line) are free"""
+    n = rng.randrange(5, 11)
+    nums = [10 * (i + 1) for i in range(n)]
+    prog = [rand_line(rng, num, nums, False) for num in nums]
+    ops = [['type', hx(l)] for l in prog] + [['save', 'SA', 'A'], ['save', 'SB', 'B'], ['save', 'SP', 'P']]
+    clear = ['clear', extra, ref]
+    pad = b':REM ' + b'p' * rng.choice([1, 2, 3, 5, 8, 20, 60])
+    if variant == 'self':
+        # every line of the file replaces itself
+        ops += [clear, ['merge', 'SA'], ['merge', 'SA'], ['type', hx(prog[0])], ['type', hx(prog[-1])]]
+    elif variant == 'delete':
+        ops += [['type', hx(b'%d' % nums[-1])], ['type', hx(b'%d' % nums[n // 2])], clear, ['merge', 'SA'], ['merge', 'SA']]
+    elif variant == 'resize':
+        # the file's lines replace longer and shorter versions of themselves
+        i, j = rng.randrange(n), rng.randrange(n)
+        ops += [['type', hx(b'%d REM' % nums[i])], ['type', hx((prog[j] + pad)[:250])], clear, ['merge', 'SA'],
+                ['merge', 'SA']]
+    elif variant == 'chain':
+        ops += [['type', hx(b'1 CHAIN MERGE "SA",65529')], ['type', hx(b'65529 END')]]
+        if rng.random() < 0.5:
+            ops += [['type', hx(b'%d' % nums[-1])]]
+        ops += [clear, ['chainmerge', 'SA']]
+    elif variant == 'overlap':
+        # another program that shares some line numbers, with longer and shorter lines
+        qnums = sorted(set(rng.sample(nums, n // 2) + [num + 5 for num in rng.sample(nums, 2)]))
+        q = [rand_line(rng, num, nums, False) for num in qnums]
+        ops = [['type', hx(l)] for l in q] + [['save', 'QA', 'A'], ['new']] + ops + [clear, ['merge', 'QA'], ['merge', 'SA']]
+    elif variant == 'retype':
+        i = rng.randrange(n)
+        ops += [clear, ['type', hx(prog[i])], ['type', hx((prog[i] + pad)[:250])], ['type', hx(prog[i])],
+                ['type', hx(b'%d REM' % nums[i])], ['type', hx(prog[i])], ['type', hx(b'%d REM new line' % (nums[i] + 5))]]
+    else:
+        ops += [clear, ['load', 'SA'], ['merge', 'SA'], ['load', 'SP'], ['load', 'SB']]
+    return {'kind': 'pressure', 'hide': 0, 'nolist': True, 'ops': ops}
+
+
+def big_program_scenario(rng):
+    """a program that fills the 64K segment up to a few bytes; its own listing is merged back and lines are retyped"""
+    nums = [10 * (i + 1) for i in range(6)]
+    prog = [rand_line(rng, num, nums, False) for num in nums]
+    ops = [['type', hx(l)] for l in prog] + [['fill', rng.choice([3, 5, 9])], ['save', 'SA', 'A'], ['merge', 'SA'],
+                                              ['type', hx(prog[2])], ['type', hx(b'20000 REM')], ['merge', 'SA']]
+    return {'kind': 'pressure-big', 'hide': 0, 'nolist': True, 'ops': ops}
+
+
 def session_part(ctx, runner):
     rng = ctx.rng
     s0, _ = runner.session(0)
@@ -843,6 +1063,21 @@ def session_part(ctx, runner):
     for _ in range(25 if ctx.quick else 1500):
         runner.run(random_ascii_scenario(rng))
         ctx.count('scenario:ascii-random')
+    # memory pressure: every setting with two of the variants per quick run (all of them, repeatedly, in thorough)
+    shift = rng.randrange(len(PRESSURE_VARIANTS))
+    for rep_ in range(1 if ctx.quick else 40):
+        for i, (extra, ref) in enumerate(PRESSURE):
+            for j in range(2 if ctx.quick else len(PRESSURE_VARIANTS)):
+                variant = PRESSURE_VARIANTS[(i + shift + 3 * j) % len(PRESSURE_VARIANTS)]
+                runner.run(pressure_scenario(rng, extra, ref, variant))
+                ctx.count('scenario:pressure:' + variant)
+        for extra, ref in PRESSURE_TYPING_ONLY:
+            runner.run(pressure_scenario(rng, extra, ref, 'retype'))
+            ctx.count('scenario:pressure:retype')
+    for _ in range(1 if ctx.quick else 12):
+        runner.run(big_program_scenario(rng))
+        ctx.count('scenario:pressure-big')
+    runner.drop_pressured()
     n_hist, n_img, n_dmg = (60, 60, 250) if ctx.quick else (1500, 1500, 6000)
     for i in range(n_hist):
         sc = history_scenario(rng, wild=(i % 3 == 0), hide=1 if i % 5 == 4 else 0)
